@@ -88,7 +88,9 @@ type tokenBag struct {
 	t  [][]core.StrategyToken
 }
 
-func newBag() *tokenBag { return &tokenBag{l: make([][]core.Listener, 16), t: make([][]core.StrategyToken, 16)} }
+func newBag() *tokenBag {
+	return &tokenBag{l: make([][]core.Listener, 16), t: make([][]core.StrategyToken, 16)}
+}
 
 func limiterMethods(l core.Limiter, bag *tokenBag, blocking bool) []c17Method {
 	acq := func(g, a int) {
